@@ -148,6 +148,14 @@ theorem learn_chain_sound (f : Cnf) (c0 : Clause) (steps : List (Clause × Int))
 
 example : chain [-1, -2] [([2, -3], 2), ([3, -1], 3)] = [-1, -1] := by decide
 
+/-- C01/C02 (clause learning, per-input check): the Boolean test the driver applies to every clause
+the CDCL mirror learns – "formula ∧ ¬clause is unsatisfiable" by the reference DPLL – decides
+entailment. -/
+theorem entailsB_iff (f : Cnf) (c : Clause) (hf : WF f) (hc : ∀ l ∈ c, l ≠ 0) :
+    entailsB f c = true ↔ Entails f c := entailsB_correct hf hc
+
+example : entailsB [[1, 2], [-1, 3], [-2, 3]] [3] = true ∧ entailsB [[1, 2], [-1, 3]] [3] = false := by decide
+
 /-! ## C02 -/
 
 /-- T-model (C02): the reference DPLL answers "unsatisfiable" exactly when formula and assumptions
